@@ -1,0 +1,90 @@
+//go:build verif
+
+package tbtc
+
+import (
+	"context"
+	"crypto/ecdsa"
+
+	"github.com/keep-network/keep-core/pkg/chain"
+	"github.com/keep-network/keep-core/pkg/net"
+	"github.com/keep-network/keep-core/pkg/protocol/group"
+)
+
+// Thin exported wrappers used by the out-of-tree verification harness (property C24).
+// They add no behaviour of their own.
+
+// VerifC24Fault is an exported copy of coordinationFault.
+type VerifC24Fault struct {
+	Culprit   chain.Address
+	FaultType CoordinationFaultType
+}
+
+// VerifC24CoordinationMessage builds a *coordinationMessage (the payload type the follower
+// routine looks for).
+func VerifC24CoordinationMessage(
+	senderID group.MemberIndex,
+	coordinationBlock uint64,
+	walletPublicKeyHash [20]byte,
+	proposal CoordinationProposal,
+) interface{} {
+	return &coordinationMessage{
+		senderID:            senderID,
+		coordinationBlock:   coordinationBlock,
+		walletPublicKeyHash: walletPublicKeyHash,
+		proposal:            proposal,
+	}
+}
+
+// VerifC24WithCancelOnBlock calls withCancelOnBlock.
+func VerifC24WithCancelOnBlock(
+	ctx context.Context,
+	block uint64,
+	waitForBlock func(context.Context, uint64) error,
+) (context.Context, context.CancelFunc) {
+	return withCancelOnBlock(ctx, block, waitForBlock)
+}
+
+// VerifC24ActivePhaseEndBlock returns newCoordinationWindow(b).activePhaseEndBlock().
+func VerifC24ActivePhaseEndBlock(coordinationBlock uint64) uint64 {
+	return newCoordinationWindow(coordinationBlock).activePhaseEndBlock()
+}
+
+// VerifC24ExecuteFollowerRoutine calls coordinationExecutor.executeFollowerRoutine on an
+// executor whose relevant fields are set from the arguments.
+func VerifC24ExecuteFollowerRoutine(
+	ctx context.Context,
+	c Chain,
+	walletPublicKey *ecdsa.PublicKey,
+	operators []chain.Address,
+	membersIndexes []group.MemberIndex,
+	operatorAddress chain.Address,
+	broadcastChannel net.BroadcastChannel,
+	membershipValidator *group.MembershipValidator,
+	leader chain.Address,
+	coordinationBlock uint64,
+	actionsAllowed []WalletActionType,
+) (CoordinationProposal, []VerifC24Fault, error) {
+	ce := &coordinationExecutor{
+		chain: c,
+		coordinatedWallet: wallet{
+			publicKey:             walletPublicKey,
+			signingGroupOperators: operators,
+		},
+		membersIndexes:      membersIndexes,
+		operatorAddress:     operatorAddress,
+		broadcastChannel:    broadcastChannel,
+		membershipValidator: membershipValidator,
+	}
+	proposal, faults, err := ce.executeFollowerRoutine(
+		ctx,
+		leader,
+		coordinationBlock,
+		actionsAllowed,
+	)
+	var out []VerifC24Fault
+	for _, f := range faults {
+		out = append(out, VerifC24Fault{Culprit: f.culprit, FaultType: f.faultType})
+	}
+	return proposal, out, err
+}
